@@ -201,7 +201,8 @@ func New(provided Config) (storage.PeerStore, error) {
 			case <-ps.closed:
 				return
 			case <-time.After(cfg.GarbageCollectionInterval):
-				before := time.Now().Add(-cfg.PeerLifetime)
+				// Peers are stamped with the cached clock, so their age is measured on it.
+				before := timecache.Now().Add(-cfg.PeerLifetime)
 				log.Debug("storage: purging peers with no announces since", log.Fields{"before": before})
 				if err = ps.collectGarbage(before); err != nil {
 					log.Error("storage: collectGarbage error", log.Fields{"before": before, "error": err})
